@@ -37,12 +37,36 @@ def gen(rng):
     b = [round(rng.uniform(-2, 2), 4) for _ in range(n)]
     xs = [round(0.1 * (i + 1), 3) for i in range(n)]
     r = rng.choice([0.001, 0.01, 0.1, 1.0, 10.0, 0.5, 300.0])
-    # index: 1..3 interactions covering 1..n consecutively
-    cuts = sorted(rng.sample(range(1, n), min(n - 1, rng.randint(0, 2)))) if n > 1 else []
-    ranges, start = [], 1
-    for c in cuts + [n]:
-        ranges.append((start, c))
-        start = c + 1
+    # index: 1..3 interactions.  two cases in three: consecutive blocks a:b covering 1..n; one in three: the rows of an interaction are NOT one
+    # contiguous block (strided a:s:b, several blocks "2,4,6:8", interleaved with the other interactions) — valid RangeParser syntax
+    def expr_of(idx):
+        # print a sorted index list as a range expression: arithmetic progressions as a:s:b, otherwise runs
+        if len(idx) >= 3 and len({idx[i + 1] - idx[i] for i in range(len(idx) - 1)}) == 1 and idx[1] - idx[0] > 1:
+            return "%d:%d:%d" % (idx[0], idx[1] - idx[0], idx[-1])
+        out, i = [], 0
+        while i < len(idx):
+            j = i
+            while j + 1 < len(idx) and idx[j + 1] == idx[j] + 1:
+                j += 1
+            out.append("%d" % idx[i] if i == j else "%d:%d" % (idx[i], idx[j]))
+            i = j + 1
+        return ",".join(out)
+    if n > 2 and rng.random() < 1 / 3:
+        k = rng.randint(2, min(3, n))
+        if rng.random() < 0.5:
+            groups = [[i for i in range(1, n + 1) if (i - 1) % k == g] for g in range(k)]        # strided, interleaved
+        else:
+            lab = [rng.randrange(k) for _ in range(n)]
+            for g in range(k):
+                lab[g] = g                                                                          # nobody empty
+            groups = [[i + 1 for i in range(n) if lab[i] == g] for g in range(k)]
+        ranges = [expr_of(g) for g in groups]
+    else:
+        cuts = sorted(rng.sample(range(1, n), min(n - 1, rng.randint(0, 2)))) if n > 1 else []
+        ranges, start = [], 1
+        for c in cuts + [n]:
+            ranges.append("%d:%d" % (start, c))
+            start = c + 1
     return dict(n=n, A=A, b=b, xs=xs, r=r, ranges=ranges, kind=kind)
 
 
@@ -56,15 +80,15 @@ def run_one(exe, s):
             for x, y in zip(s["xs"], s["b"]):
                 f.write("%r %r\n" % (x, y))
         with open(os.path.join(d, "g.idx"), "w") as f:
-            for k, (a, b) in enumerate(s["ranges"]):
-                f.write("T%d %d:%d\n" % (k, a, b))
+            for k, e in enumerate(s["ranges"]):
+                f.write("T%d %s\n" % (k, e))
         r = subprocess.run([exe, "-i", "g.imc", "-g", "g.gmc", "-n", "g.idx", "-r", repr(s["r"])], cwd=d, stdout=subprocess.PIPE, stderr=subprocess.PIPE, timeout=600)
         status = "ok" if r.returncode == 0 else (r.stderr.decode(errors="replace")[-120:].strip().encode().hex() or "-")
         out = ["C06 imc %s %d %s" % (s["sid"], s["n"], me(s["r"]))]
         out.append(" ".join(me(v) for row in s["A"] for v in row))
         out.append(" ".join(me(v) for v in s["b"]))
         out.append(" ".join(me(v) for v in s["xs"]))
-        out.append("%d %s" % (len(s["ranges"]), " ".join("%d %d" % ab for ab in s["ranges"])))
+        out.append("%d %s" % (len(s["ranges"]), " ".join(e.encode().hex() for e in s["ranges"])))
         tabs = []
         for k in range(len(s["ranges"])):
             p = os.path.join(d, "T%d.dpot.imc" % k)
